@@ -174,6 +174,7 @@ type l2world struct {
 	versions [][]string // canonical version lists returned by s3db_version so far
 	roMuts   int
 	lastMuts int
+	fltFired, lastFailed bool // storage-fault bookkeeping of the current statement
 	dead     bool // a Go panic crossed the cgo boundary: SQLite's mutex is held, the process state is unusable
 }
 
@@ -377,6 +378,14 @@ type sop struct {
 	before int64
 	from   []string // canonical version names for changes
 	to     []string
+	flt    *l2fault
+}
+
+// l2fault: a one-shot storage fault for the duration of one statement: the k-th matching request
+// (on = "G": any GET; "P": any PUT outside merged/) is answered 403
+type l2fault struct {
+	on string
+	k  int
 }
 type scon struct {
 	op string // eq lt le ge gt
@@ -390,15 +399,88 @@ func fmtTime(sec int64) string { return time.Unix(sec, 0).UTC().Format("2006-01-
 // run a statement on the s3db table and (when kept) on the native twin; report both outcomes
 func (w *l2world) execBoth(c *l2conn, stmt string, args ...interface{}) (string, string) {
 	var nat string
-	if w.native && c.native != "" {
-		_, err := c.db.Exec(strings.ReplaceAll(stmt, "@T", c.native), args...)
-		nat = classifyErr(err)
-	}
 	_, err := c.db.Exec(strings.ReplaceAll(stmt, "@T", c.table), args...)
+	w.lastFailed = err != nil
+	if w.native && c.native != "" && !(w.fltFired && err != nil) {
+		// (a statement that failed because of an injected storage fault is not run on the twin)
+		_, nerr := c.db.Exec(strings.ReplaceAll(stmt, "@T", c.native), args...)
+		nat = classifyErr(nerr)
+	}
 	return classifyErr(err), nat
 }
 
+// exec with a storage fault: the statement runs with a one-shot fault installed in the proxy.
+// The case line gets "F <on> <k> <skip>" as an operation of its own, followed by the statement;
+// when the fault fired and the statement failed, skip = the statement's token count: the model
+// leaves the statement out (a failed COMMIT = ROLLBACK) and everything after it must look as if
+// the statement had never been issued (C05, C07, C14, C16).
 func (w *l2world) exec(op *sop, stats map[string]int) bool {
+	if op.flt == nil {
+		return w.exec1(op, stats)
+	}
+	f := op.flt
+	cnt := 0
+	w.fltFired, w.lastFailed = false, false
+	w.px.mu.Lock()
+	w.px.plan = func(idx int, kind, key string) int {
+		if w.fltFired || !strings.HasPrefix(key, w.prefix+"/") {
+			return fOK
+		}
+		match := (f.on == "G" && kind == "G") || (f.on == "P" && kind == "P" && !strings.Contains(key, "/merged/"))
+		if !match {
+			return fOK
+		}
+		if cnt == f.k {
+			w.fltFired = true
+			return fErr
+		}
+		cnt++
+		return fOK
+	}
+	w.px.mu.Unlock()
+	outLen, opsLen, nops0 := w.out.sb.Len(), w.ops.sb.Len(), w.nops
+	ok := w.exec1(op, stats)
+	w.px.mu.Lock()
+	w.px.plan = nil
+	w.px.mu.Unlock()
+	if !ok {
+		return false
+	}
+	opText, outText := w.ops.sb.String()[opsLen:], w.out.sb.String()[outLen:]
+	opsHead, outHead := w.ops.sb.String()[:opsLen], w.out.sb.String()[:outLen]
+	w.ops.sb.Reset()
+	w.ops.sb.WriteString(opsHead)
+	w.out.sb.Reset()
+	w.out.sb.WriteString(outHead)
+	x := w.fltFired && w.lastFailed
+	skip := 0
+	if x {
+		skip = len(strings.Fields(opText))
+		stats["xfail_"+op.kind+"_"+f.on]++
+	} else if w.fltFired {
+		stats["fault_survived_"+op.kind]++
+	} else {
+		stats["fault_not_reached"]++
+	}
+	w.ops.s("F")
+	w.ops.s(f.on)
+	w.ops.i(f.k)
+	w.ops.i(skip)
+	w.out.s(";")
+	w.out.s("F")
+	w.ops.sb.WriteString(opText)
+	if x {
+		w.out.s(";")
+		w.out.s("xerr")
+	} else {
+		w.out.sb.WriteString(outText)
+	}
+	w.nops = nops0 + 2
+	w.fltFired = false
+	return true
+}
+
+func (w *l2world) exec1(op *sop, stats map[string]int) bool {
 	out := w.out
 	var o tw
 	c := w.conns[op.c]
@@ -448,7 +530,7 @@ func (w *l2world) exec(op *sop, stats map[string]int) bool {
 		w.names(&o, retire)
 		if err == nil {
 			c.created = true
-			if w.native && c.native == "" {
+			if w.native && c.native == "" && !op.ro {
 				c.native = fmt.Sprintf("n%d", nextCounter())
 				if _, err := c.db.Exec(fmt.Sprintf("create table %s (%s) without rowid", c.native, w.colDecl())); err != nil {
 					panic(err)
@@ -597,6 +679,7 @@ func (w *l2world) exec(op *sop, stats map[string]int) bool {
 			w.dead = true
 			fmt.Fprintf(os.Stderr, "PANIC in select: %s args=%v\n", q, args)
 		} else if err != nil {
+			w.lastFailed = true
 			if strings.Contains(err.Error(), "backward: load: unknown link type") {
 				// mast Cursor.Backward follows a nil child link of a sparse interior node
 				out.s("err:backward_nil_link")
@@ -725,6 +808,7 @@ func (w *l2world) exec(op *sop, stats map[string]int) bool {
 		stats["changes"]++
 	case "begin", "commit", "rollback":
 		_, err := c.db.Exec(op.kind)
+		w.lastFailed = err != nil
 		if op.kind == "begin" && err == nil {
 			c.intx = true
 		}
@@ -874,6 +958,11 @@ func (w *l2world) exec(op *sop, stats map[string]int) bool {
 	return true
 }
 
+func (w *l2world) connInTx(c int) bool {
+	cn := w.conns[c]
+	return cn != nil && cn.intx
+}
+
 func (w *l2world) finish() (string, string) {
 	w.close()
 	w.in.i(w.ncols)
@@ -898,6 +987,7 @@ type l2profile struct {
 	changes    bool // s3db_changes between recorded versions
 	roReader   bool // an extra read-only connection that does everything
 	autoTime   bool // some transactions run without an explicit write time
+	faults     bool // one-shot storage faults during statements; a fresh reader looks at the end
 }
 
 var keyPoolAll = []sval{
@@ -951,6 +1041,13 @@ func runL2History(g *gen, prof l2profile, nops int, stats map[string]int) (strin
 	ncols := 1 + g.r.Intn(3)
 	epn := []int{0, 0, 2, 3, 5}[g.r.Intn(5)]
 	cache := []int{0, 0, 64}[g.r.Intn(3)]
+	if prof.faults {
+		// small nodes and no node cache: statements read their nodes from storage
+		// (a single-node tree, epn 0, in a third of the cases: the rollback snapshot is exact there,
+		//  finding F-C05-1 needs several levels)
+		epn = []int{0, 0, 2, 2, 3, 4}[g.r.Intn(6)]
+		cache = 0
+	}
 	w := newL2World(ncols, epn, cache, prof.native)
 	// key pool for this case
 	var keys []sval
@@ -974,7 +1071,20 @@ func runL2History(g *gen, prof l2profile, nops int, stats map[string]int) (strin
 		}
 		return l2BaseSec + int64(1+g.r.Intn(8))*10
 	}
-	do := func(op *sop) bool { return w.exec(op, stats) }
+	do := func(op *sop) bool {
+		if prof.faults && g.r.Intn(4) == 0 {
+			switch op.kind {
+			case "ins", "upd", "del", "sel":
+				op.flt = &l2fault{on: "G", k: g.r.Intn(3)}
+				if g.r.Intn(3) == 0 && !w.connInTx(op.c) {
+					op.flt = &l2fault{on: "P", k: g.r.Intn(3)}
+				}
+			case "commit":
+				op.flt = &l2fault{on: "P", k: g.r.Intn(4)}
+			}
+		}
+		return w.exec(op, stats)
+	}
 	nconn := prof.writers
 	for c := 0; c < nconn; c++ {
 		do(&sop{kind: "conn", c: c})
@@ -1200,6 +1310,14 @@ func runL2History(g *gen, prof l2profile, nops int, stats map[string]int) (strin
 		do(&sop{kind: "conn", c: nconn})
 		do(&sop{kind: "create", c: nconn, ro: true})
 		do(&sop{kind: "sel", c: nconn})
+	} else if prof.faults {
+		// what the writer was told is committed is what a fresh reader finds
+		do(&sop{kind: "sel", c: 0})
+		prof.faults = false
+		do(&sop{kind: "conn", c: 1})
+		do(&sop{kind: "create", c: 1, ro: true})
+		do(&sop{kind: "sel", c: 1})
+		do(&sop{kind: "sel", c: 1, desc: false, cons: []scon{{op: "ge", v: sval{tag: 'I', i: 0}}}})
 	}
 	return w.finish()
 }
@@ -1313,6 +1431,8 @@ func runL2(seed int64, n int, dir string, profName string) error {
 			prof = l2profile{writers: 1 + g.r.Intn(2), tx: true, retries: true, connAttrs: true, autoTime: true, fullMask: true}
 		case "tx":
 			prof = l2profile{writers: 1, native: true, monotone: true, tx: true, connAttrs: true}
+		case "faults":
+			prof = l2profile{writers: 1, native: true, monotone: true, tx: g.r.Intn(3) != 0, faults: true}
 		case "ro":
 			prof = l2profile{writers: 1 + g.r.Intn(2), roReader: true, changes: true, vacuum: g.r.Intn(2) == 0}
 		case "changes":
@@ -1356,8 +1476,15 @@ func replaySQL(r *tr) (string, string) {
 	ncols, epn, cache, nops := r.i(), r.i(), r.i(), r.i()
 	w := newL2World(ncols, epn, cache, true)
 	stats := map[string]int{}
+	var pendingFault *l2fault
 	for j := 0; j < nops; j++ {
 		op := &sop{kind: r.next()}
+		if op.kind == "F" {
+			pendingFault = &l2fault{on: r.next(), k: r.i()}
+			r.i()
+			continue
+		}
+		op.flt, pendingFault = pendingFault, nil
 		switch op.kind {
 		case "conn":
 			op.c = r.i()
